@@ -306,7 +306,7 @@ def documents(draw, P):
 MEASURE_DEFAULT = dict(
     max_spines=3, others=False, other_types=['**text', '**dynam', '**harm'], splits=True, rejoin_before_bar=True,
     sig_changes=False, same_sig_kinds=True, max_measures=6, chords=True, comments=True, tandems=True,
-    split_across_bar=False, hidden_bars=True,
+    split_across_bar=False, hidden_bars=True, sig_after_bar=False, quiet_spines=False,
 )
 
 
@@ -359,11 +359,13 @@ def measure_documents(draw, MP):
             pre.insert(draw(st.integers(0, len(pre))), _row(cells))
     rows.extend(pre)
 
+    quiet = [None]  # spine that only holds null tokens in the current measure (quiet_spines)
+
     def data_row(force_note=False):
-        cells = [_data_cell(draw, P, paths.typ(k)) for k in range(width())]
+        cells = [_data_cell(draw, P, paths.typ(k)) if paths.sp[k] != quiet[0] else G.null_cell() for k in range(width())]
         if all(c['k'] in ('null',) for c in cells) or (force_note and all(c['k'] == 'null' for c, k in zip(cells, range(width())) if paths.typ(k) == KERN)):
             # at least one sounding cell (note, rest or chord) in a kern spine
-            ks = [k for k in range(width()) if paths.typ(k) == KERN]
+            ks = [k for k in range(width()) if paths.typ(k) == KERN and paths.sp[k] != quiet[0]]
             k0 = draw(st.sampled_from(ks))
             cells[k0] = draw(G.kern_data_cells(null_weight=0, sigs=False, grace=False, rest_in_chord=False))
         return _row(cells)
@@ -391,6 +393,16 @@ def measure_documents(draw, MP):
         barno += 1
         b = draw(G.barlines(number=barno, hidden=MP['hidden_bars']))
         rows.append(_row([dict(b) for _ in range(width())]))
+        quiet[0] = None
+        if MP['quiet_spines'] and nk >= 2 and not open_split and draw(st.integers(0, 2)) == 0:
+            quiet[0] = draw(st.sampled_from([i for i, t in enumerate(types) if t == KERN]))
+        if MP['sig_after_bar'] and draw(st.integers(0, 2)) == 0:
+            # a signature change directly after the barline (clefs twice as often as the others)
+            kind = draw(st.sampled_from(['clef', 'clef', 'key', 'time', 'meter']))
+            strat = {'clef': G.clefs(supported_only=True), 'key': G.keysigs(), 'time': G.timesigs(), 'meter': G.meters()}[kind]
+            cells = [draw(strat) if paths.typ(k) == KERN and draw(st.integers(0, 2)) else G.nullinterp_cell() for k in range(width())]
+            if any(c['k'] == 'interp' for c in cells):
+                rows.append(_row(cells))
         for _ in range(draw(st.integers(0, 3))):
             x = draw(st.integers(0, 11))
             kern_cols = [k for k in range(width()) if paths.typ(k) == KERN]
